@@ -528,6 +528,12 @@ theorem unmarkDeep_clean_generated {ord : Ord} (ho : OrdOk ord) {X : SetOracle} 
   obtain ⟨ms, h1, _, h3, h4⟩ := unmarkDeep_generated ho hX hσ v hg
   exact ⟨ms, h1, h3, h4⟩
 
+/-- The translated `ContainsMarked` (a closure over `Walk`, the hand-written walk of Walk.lean) decides whether any
+value inside carries a mark, on every value of the shape the API builds (`Walk.shapedV`). -/
+theorem containsMarked_generated (ord : Ord) {X : SetOracle} (hX : Walk.IterPerm X) (σ : Walk.Sched) (v : Value)
+    (hs : Walk.shapedV v = true) : Value_ContainsMarked ord X σ v = .ok v.containsMarked :=
+  ContainsMarked_tie ord hX σ v hs
+
 /-- the hypotheses are satisfiable: reversal is an admissible map order, and a marked value round-trips -/
 example : OrdOk List.reverse := ordOk_reverse
 example : (Value_Mark List.reverse ⟨.bool, .marked ["a", "c"] (.b true)⟩ (.one "b")).bind (Value_Unmark List.reverse) =
